@@ -104,6 +104,30 @@ Proof.
   intros fs st rest H. apply (run_serial_frames fs st rest H).
 Qed.
 
+(* the serial port's reads may also be interrupted (EINTR) any number of times at any point, inside frames too: read_exact retries *)
+Definition drop_sint (s: list stok) : list stok := filter (fun t => match t with SINT => false | _ => true end) s.
+Lemma run_serial_drop_sint : forall s ph b, run serial ph b s = run serial ph b (drop_sint s).
+Proof.
+  induction s as [|t s IH]; intros ph b; [reflexivity|]. destruct t as [x| | |].
+  - cbn [drop_sint filter run]. destruct (mstep serial ph b (SB x)) as [[r|ph'] b']; [rewrite (IH (idle serial) b')|rewrite (IH ph' b')]; reflexivity.
+  - cbn [drop_sint filter run]. destruct (mstep serial ph b STO) as [[r|ph'] b']; [rewrite (IH (idle serial) b')|rewrite (IH ph' b')]; reflexivity.
+  - cbn [drop_sint filter run]. assert (E: mstep serial ph b SINT = (Cont ph, b)) by (destruct ph; reflexivity). rewrite E. apply IH.
+  - cbn [drop_sint filter run]. destruct (mstep serial ph b SERR) as [[r|ph'] b']; [rewrite (IH (idle serial) b')|rewrite (IH ph' b')]; reflexivity.
+Qed.
+Theorem transparent_serial_interrupted ps its fuel s' : Forall wfp ps -> Forall small ps -> map snd its = concat (map frag_spec ps) ->
+  drop_sint s' = concat (map (gapped STO frames_tokens_serial) its) -> (length s' < fuel)%nat ->
+  filter notnone (map fst (fst (polls serial fuel None s'))) = map RPacket ps /\ snd (polls serial fuel None s') = None.
+Proof.
+  intros Hw Hs Hits Hd Hf.
+  assert (Hg: Forall (fun it => good_frame (snd it)) its).
+  { pose proof (frags_good ps Hw Hs) as G. rewrite <- Hits in G. rewrite Forall_forall in *. intros it Hin. apply G. apply in_map. exact Hin. }
+  destruct (run_gapped serial STO frames_tokens_serial (fun b => eq_refl) (fun fs st rest H => run_serial_frames fs st rest H) its None Hg) as [rs [Hr Hfl]].
+  rewrite Hits, frun_packets in * by assumption. cbn [fst snd] in *.
+  assert (Hr': run serial (idle serial) None s' = (rs, idle serial, None)) by (rewrite run_serial_drop_sint, Hd; exact Hr).
+  destruct (polls_of_run serial eq_refl s' None rs None fuel Hr' Hf) as [P1 [P2 _]].
+  split; [rewrite P1, Hfl; apply filter_notnone_packets|exact P2].
+Qed.
+
 Theorem transparent_can ps its fuel : Forall wfp ps -> Forall small ps -> map snd its = concat (map frag_spec ps) ->
   let s := concat (map (gapped CWB frames_tokens_can) its) in (length s < fuel)%nat ->
   filter notnone (map fst (fst (polls can fuel None s))) = map RPacket ps /\ snd (polls can fuel None s) = None.
